@@ -11,7 +11,7 @@ from __future__ import annotations
 
 import ast
 
-from ..astutil import dotted, src, walk_local, local_assignments, calls, op_arms, if_chain, op_test
+from ..astutil import clone, dotted, src, walk_local, local_assignments, calls, op_arms, if_chain, op_test
 from ..inline import Specialised, callable_body, call_sites
 from ..report import AnalysisError
 
@@ -120,14 +120,29 @@ def check(prog, rep):
     if len(params) < 3:
         raise AnalysisError("_make_constraint signature changed")
     lhs, sense_p, rhs = params[0], params[1], params[2]
-    subs = [n for n in walk_local(mk.node, include_self=False) if isinstance(n, ast.Assign) and isinstance(n.value, ast.BinOp)]
+    def wraps(e, param, fi, depth=0):
+        """``e`` denotes the value of ``param`` itself: the name, Constant(<wrap>), float(<wrap>), or a module helper
+        applied to it whose every return is such a wrap of its own parameter."""
+        if isinstance(e, ast.Name):
+            return e.id == param
+        if isinstance(e, ast.Call) and len(e.args) == 1 and not e.keywords:
+            f = dotted(e.func)
+            if f in ("Constant", "float"):
+                return wraps(e.args[0], param, fi, depth)
+            h = prog.functions.get(f"{fi.module.name}:{f}") if f else None
+            if h is not None and depth < 2 and wraps(e.args[0], param, fi, depth):
+                hp = h.node.args.args[0].arg
+                rets = [r.value for r in walk_local(h.node) if isinstance(r, ast.Return)]
+                return bool(rets) and all(r is not None and wraps(r, hp, h, depth + 1) for r in rets)
+        return False
+
+    subs = [n for n in walk_local(mk.node, include_self=False) if isinstance(n, ast.BinOp) and isinstance(n.op, (ast.Sub, ast.Add)) and {lhs, rhs} <= {x.id for x in ast.walk(n) if isinstance(x, ast.Name)}]
     nsub = 0
-    for a in subs:
-        b = a.value
+    for b in subs:
         nsub += 1
-        right_ok = src(b.right) == rhs or (isinstance(b.right, ast.Call) and dotted(b.right.func) == "Constant" and rhs in {x.id for x in ast.walk(b.right) if isinstance(x, ast.Name)})
+        right_ok = wraps(b.right, rhs, mk)
         ok = isinstance(b.op, ast.Sub) and src(b.left) == lhs and right_ok
-        rep.ob("R10.1", "_make_constraint", ok, f"normalises to {src(b)}" if ok else f"normalises to `{src(b)}`; must be {lhs} - {rhs} (left minus right)", loc=f"{mk.module.rel}:{a.lineno}", detail=f"normalisation:{'expr-rhs' if src(b.right) == rhs else 'scalar-rhs'}")
+        rep.ob("R10.1", "_make_constraint", ok, f"normalises to {src(b)}" if ok else f"normalises to `{src(b)}`; must be {lhs} - {rhs} (left minus right)", loc=f"{mk.module.rel}:{b.lineno}", detail=f"normalisation:{'expr-rhs' if src(b.right) == rhs else 'scalar-rhs'}")
     if nsub == 0:
         raise AnalysisError("_make_constraint: normalisation lhs - rhs not found")
     cons = [c for c in calls(mk.node) if dotted(c.func) == "Constraint"]
@@ -154,25 +169,47 @@ def check(prog, rep):
     vals = {nm for nm, vs in local_assignments(viol.node).items() for v in vs if isinstance(v, ast.Call) and "evaluate" in src(v.func)}
     if not vals:
         raise AnalysisError("Constraint.violation: evaluated value not found")
-    arms = op_arms(viol.node.body, "sense")
-    table = {}
-    else_body = None
-    for st in viol.node.body:
-        if isinstance(st, ast.If):
-            ch, els = if_chain(st)
-            else_body = els
-    for a in arms:
-        for lit in a.kinds:
-            table[lit] = a.body
-    handled = set(table)
-    if else_body:
-        rest = {"<=", ">=", "=="} - handled
-        if len(rest) == 1:
-            table[next(iter(rest))] = else_body
+    from ..scenario import Explorer
 
-    def form(body):
-        r = [s for s in body if isinstance(s, ast.Return)]
-        return r[0].value if r else None
+    def violation_form(sense):
+        """The expression Constraint.violation returns for this sense, locals substituted."""
+        def atom_truth(t, state):
+            ot = op_test(t)
+            if ot and ot[0].endswith("sense"):
+                hit = sense in ot[1]
+                return (not hit) if ot[2] else hit
+            return None
+
+        class Sub(ast.NodeTransformer):
+            def __init__(self, env):
+                self.env = env
+
+            def visit_Name(self, node):
+                if node.id in self.env and isinstance(node.ctx, ast.Load) and node.id not in vals:
+                    import copy
+                    return clone(self.env[node.id])
+                return node
+
+        def on_stmt(st, state):
+            if isinstance(st, ast.Assign) and len(st.targets) == 1 and isinstance(st.targets[0], ast.Name) and st.targets[0].id not in vals:
+                import copy
+                state["env"][st.targets[0].id] = Sub(state["env"]).visit(clone(st.value))
+
+        import copy
+        paths = Explorer(atom_truth, on_stmt).explore(viol.node.body, {"env": {}})
+        forms = []
+        for state, term in paths:
+            if isinstance(term, tuple) and term[1] is not None:
+                forms.append(Sub(state["env"]).visit(clone(term[1])))
+            else:
+                forms.append(None)
+        texts = {src(f) if f is not None else None for f in forms}
+        return forms[0] if len(texts) == 1 else None
+
+    table = {sense: violation_form(sense) for sense in ("<=", ">=", "==")}
+
+    def form(e):
+        return e
 
     def is_v(n):
         return isinstance(n, ast.Name) and n.id in vals
@@ -181,7 +218,7 @@ def check(prog, rep):
         return isinstance(n, ast.Constant) and n.value == 0
 
     for sense in ("<=", ">=", "=="):
-        e = form(table.get(sense, []))
+        e = form(table.get(sense))
         ok = False
         if e is not None and isinstance(e, ast.Call):
             f = dotted(e.func)
